@@ -9,8 +9,9 @@
 //	     tunnelled CONNECT is sent to that proxy, which answers it and carries the tunnel;
 //	     plain http requests are forwarded to it by a real http.Transport
 //
-//	req = <mode><reqmod><rt><resmod><close>[<errtext>]
+//	req = <mode><reqmod><rt><resmod><close>[<errtext>][<body>]
 //	  mode   g plain request | b CONNECT on a proxy without MITM (blind tunnel) | m CONNECT on a MITM proxy
+//	         d CONNECT tunnelled blindly through the downstream proxy of a D case (b is invalid there)
 //	  reqmod independent flags of ONE call (it always mutates the request):
 //	         P none | E return error | S skip round trip | H hijack the session
 //	         A hijack+error | B skip+error | C skip+hijack | D skip+hijack+error
@@ -25,6 +26,9 @@
 //	         https inside a MITM tunnel, or a downstream proxy is configured)
 //	  resmod P none | E return error | H hijack the session | A hijack+error
 //	  close  k keep-alive | c request carries "Connection: close"
+//	  body   (optional letter, plain requests) the request is a POST with a body:
+//	         l "hello" with Content-Length | h "hello" chunked | r a body that reads like an HTTP request,
+//	         Content-Length | j the same, chunked
 //	  errtext (optional digit) text of the modifiers' errors: 0 plain | 1 quotes and backslashes |
 //	         2 a *martian.MultiError of two errors (joined by a newline) | 3 control bytes | 4 5000 bytes
 //
@@ -37,9 +41,13 @@
 //	Q.r.c.s.L                 request modifier called on request r
 //	(warn = number of Warning values of the form  199 "martian" quoted-string quoted-string  without
 //	 control characters, plus 100 for every value not of that form)
-//	U.r.same.warn.m           round tripper called (for R/Q/S: logged by the real origin when the request arrives): same request object as Q?, Warning values, X-Req-Mod values
+//	U.r.same.warn.m           round tripper called (for R/Q/S: logged by the real origin when the request arrives;
+//	                          for mode d: the CONNECT as it arrives at the downstream proxy): same request object as Q?, Warning values, X-Req-Mod values
 //	D.r                       dial (CONNECT without MITM) during exchange r
-//	S.r.same.c.s.status.warn.L  response modifier called; r from res.Request, same = res.Request is the object seen by Q
+//	S.r.same.c.s.status.warn.qwarn.L  response modifier called; r from res.Request, same = res.Request is the
+//	                          object seen by Q; qwarn = Warning values on res.Request.Header
+//	(Q: a request whose method / path is not what the client sent under that X-Tok, or without X-Tok,
+//	 is logged as request 996 / 998: the modifiers saw a request the client never sent)
 //	W.r.status.warn.close.m   the client received this response to request r (m = X-Res-Mod values)
 //	T.r                       a request sent through the tunnel of CONNECT r reached the tunnel origin unseen by modifiers
 //	H.r                       the modifier that hijacked the session during exchange r returned
@@ -79,14 +87,24 @@ type reqTok struct {
 	sh, se     bool
 	cl         byte
 	et         byte // error text kind '0'..'4'
+	body       byte // 0, 'l', 'h', 'r', 'j'
 }
 
 func parseTok(t string) (reqTok, bool) {
-	et := byte('0')
-	if len(t) == 6 && t[5] >= '0' && t[5] <= '4' {
-		et, t = t[5], t[:5]
+	et, body := byte('0'), byte(0)
+	for len(t) > 5 {
+		c := t[len(t)-1]
+		switch {
+		case c >= '0' && c <= '4':
+			et = c
+		case strings.ContainsRune("lhrj", rune(c)) && t[0] == 'g':
+			body = c
+		default:
+			return reqTok{}, false
+		}
+		t = t[:len(t)-1]
 	}
-	if len(t) != 5 || !strings.ContainsRune("gbm", rune(t[0])) || !strings.ContainsRune("PESHABCD", rune(t[1])) ||
+	if len(t) != 5 || !strings.ContainsRune("gbmd", rune(t[0])) || !strings.ContainsRune("PESHABCD", rune(t[1])) ||
 		!strings.ContainsRune("OFCNRETUXQS", rune(t[2])) || !strings.ContainsRune("PEHA", rune(t[3])) || !strings.ContainsRune("kc", rune(t[4])) {
 		return reqTok{}, false
 	}
@@ -97,7 +115,7 @@ func parseTok(t string) (reqTok, bool) {
 		rt: t[2],
 		sh: s == 'H' || s == 'A', se: s == 'E' || s == 'A',
 		cl: t[4],
-		et: et,
+		et: et, body: body,
 	}, true
 }
 
@@ -214,7 +232,8 @@ type env struct {
 	script   map[int]reqTok
 	retained map[int]*http.Request
 	ctxOf    map[int]*martian.Context
-	sameOf   map[int]int // request r reached the round tripper as the object the request modifier saw
+	expect   map[int]string // method and path the client sent under X-Tok r
+	sameOf   map[int]int    // request r reached the round tripper as the object the request modifier saw
 	lastQ    int
 	tunAddr  string
 	via      bool // downstream proxy configured
@@ -243,6 +262,10 @@ func downstream() (string, *http.Transport) {
 				w.WriteHeader(203)
 				io.WriteString(w, "ok")
 				return
+			}
+			if e, _ := curEnv.Load().(*env); e != nil {
+				// the CONNECT as the downstream proxy receives it
+				e.rec.Add(fmt.Sprintf("U.%d.1.%d.%d", tokOf(r.Header), warnCount(r.Header), len(r.Header.Values("X-Req-Mod"))))
 			}
 			hj, ok := w.(http.Hijacker)
 			if !ok {
@@ -335,6 +358,9 @@ func (e *env) ModifyRequest(req *http.Request) (err error) {
 	if old, ok := e.retained[r]; ok && old != req {
 		r = 996 // a second request object claiming the same script position
 	}
+	if want, ok := e.expect[r]; ok && req.URL != nil && want != req.Method+" "+req.URL.Path {
+		r = 996 // not the request the client sent under this X-Tok (merged with foreign bytes)
+	}
 	e.retained[r] = req
 	e.lastQ = r
 	beh, ok := e.script[r]
@@ -388,7 +414,11 @@ func (e *env) ModifyResponse(res *http.Response) (err error) {
 	beh, ok := e.script[r]
 	e.mu.Unlock()
 	c, s := e.ctxFields(ctx)
-	e.rec.Add(fmt.Sprintf("S.%d.%d.%s.%s.%d.%d.%s", r, same, c, s, res.StatusCode, warnCount(res.Header), e.linked()))
+	qw := 0
+	if res.Request != nil {
+		qw = warnCount(res.Request.Header)
+	}
+	e.rec.Add(fmt.Sprintf("S.%d.%d.%s.%s.%d.%d.%d.%s", r, same, c, s, res.StatusCode, warnCount(res.Header), qw, e.linked()))
 	res.Header.Add("X-Res-Mod", "1")
 	if !ok {
 		return nil
@@ -426,6 +456,14 @@ func (e *env) RoundTrip(req *http.Request) (*http.Response, error) {
 		rt = map[byte]byte{'R': 'O', 'Q': 'E', 'S': 'T'}[rt]
 	}
 	e.rec.Add(fmt.Sprintf("U.%d.%d.%d.%d", r, same, warnCount(req.Header), len(req.Header.Values("X-Req-Mod"))))
+	closeBody := func() {
+		if req.Body != nil {
+			req.Body.Close() // http.RoundTripper: "RoundTrip must always close the body, including on errors"
+		}
+	}
+	if strings.ContainsRune("FETUX", rune(rt)) {
+		closeBody()
+	}
 	switch rt {
 	case 'F':
 		return nil, errors.New("upstream-failure")
@@ -462,6 +500,7 @@ func (e *env) RoundTrip(req *http.Request) (*http.Response, error) {
 		res.Request = rr
 		return res, nil
 	}
+	closeBody()
 	return &http.Response{
 		StatusCode: 203, Status: "203 Non-Authoritative Information", Proto: "HTTP/1.1", ProtoMajor: 1, ProtoMinor: 1,
 		Header: http.Header{"Content-Type": {"text/plain"}}, Body: io.NopCloser(strings.NewReader("ok")), ContentLength: 2, Request: rr,
@@ -560,16 +599,29 @@ func (e *env) playConn(addr string, toks []reqTok, base int, roots *tls.Config) 
 			break
 		}
 		var sb strings.Builder
-		method := "GET"
+		method, verb, payload := "GET", "GET", ""
+		switch t.body {
+		case 'l', 'h':
+			verb, payload = "POST", "hello"
+		case 'r', 'j':
+			verb, payload = "POST", "GET http://smuggled.example/ HTTP/1.1\r\nHost: smuggled.example\r\n\r\n"
+		}
 		switch {
 		case t.mode != 'g':
-			method = "CONNECT"
+			method, verb = "CONNECT", "CONNECT"
 			sb.WriteString("CONNECT example.com:443 HTTP/1.1\r\nHost: example.com:443\r\n")
 		case inTLS:
-			fmt.Fprintf(&sb, "GET /r%d HTTP/1.1\r\nHost: example.com\r\n", r)
+			fmt.Fprintf(&sb, "%s /r%d HTTP/1.1\r\nHost: example.com\r\n", verb, r)
 		default:
-			fmt.Fprintf(&sb, "GET http://origin.test/r%d HTTP/1.1\r\nHost: origin.test\r\n", r)
+			fmt.Fprintf(&sb, "%s http://origin.test/r%d HTTP/1.1\r\nHost: origin.test\r\n", verb, r)
 		}
+		e.mu.Lock()
+		if verb == "CONNECT" {
+			e.expect[r] = "CONNECT "
+		} else {
+			e.expect[r] = fmt.Sprintf("%s /r%d", verb, r)
+		}
+		e.mu.Unlock()
 		fmt.Fprintf(&sb, "X-Tok: %d\r\n", r)
 		switch t.rt {
 		case 'Q':
@@ -580,7 +632,14 @@ func (e *env) playConn(addr string, toks []reqTok, base int, roots *tls.Config) 
 		if t.cl == 'c' {
 			sb.WriteString("Connection: close\r\n")
 		}
-		sb.WriteString("\r\n")
+		switch t.body {
+		case 'l', 'r':
+			fmt.Fprintf(&sb, "Content-Length: %d\r\n\r\n%s", len(payload), payload)
+		case 'h', 'j':
+			fmt.Fprintf(&sb, "Transfer-Encoding: chunked\r\n\r\n%x\r\n%s\r\n0\r\n\r\n", len(payload), payload)
+		default:
+			sb.WriteString("\r\n")
+		}
 		cur.SetDeadline(time.Now().Add(respWait))
 		if hijacked {
 			cur.SetDeadline(time.Now().Add(respWaitHijack))
@@ -705,8 +764,11 @@ func runCase(in []string) (out []string) {
 		if rt.mode == 'm' {
 			useMitm = true
 		}
-		if rt.mode == 'b' {
+		if rt.mode == 'b' || rt.mode == 'd' {
 			blind = true
+		}
+		if (rt.mode == 'd') != via && rt.mode != 'g' && rt.mode != 'm' {
+			return []string{"INVALID"} // b only without, d only with a downstream proxy
 		}
 		conns[len(conns)-1] = append(conns[len(conns)-1], rt)
 	}
@@ -714,7 +776,7 @@ func runCase(in []string) (out []string) {
 		return []string{"INVALID"}
 	}
 	rec := p2x.NewRec()
-	e := &env{via: via, rec: rec, script: map[int]reqTok{}, retained: map[int]*http.Request{}, ctxOf: map[int]*martian.Context{}, sameOf: map[int]int{}, lastQ: 994}
+	e := &env{via: via, rec: rec, script: map[int]reqTok{}, retained: map[int]*http.Request{}, ctxOf: map[int]*martian.Context{}, sameOf: map[int]int{}, expect: map[int]string{}, lastQ: 994}
 	realOrigin()
 	curEnv.Store(e)
 	n := 0
@@ -825,6 +887,9 @@ func randTok(r *hx.RNG, mode byte) string {
 	if strings.ContainsRune("EABD", rune(q)) || strings.ContainsRune("EA", rune(s)) {
 		t += string(rune('0' + r.Intn(5)))
 	}
+	if mode == 'g' && r.Chance(1, 4) {
+		t += string("lhrj"[r.Intn(4)])
+	}
 	return t
 }
 
@@ -857,6 +922,15 @@ func main() {
 	n := 0
 	emit := func(kind string, in []string) {
 		n++
+		// with a downstream proxy a blind CONNECT is of mode d
+		if len(in) > 0 && in[0] == "D" {
+			in = append([]string(nil), in...)
+			for i, t := range in {
+				if len(t) >= 5 && t[0] == 'b' {
+					in[i] = "d" + t[1:]
+				}
+			}
+		}
 		// enumerated scripts: give every erroring request one of the five error texts in turn
 		if kind != "rnd" && kind != "etxt" {
 			in = append([]string(nil), in...)
@@ -876,6 +950,9 @@ func main() {
 			if t != "K" {
 				nreq++
 				modes[t[0]] = true
+				if len(t) > 5 && strings.ContainsAny(t[5:], "lhrj") {
+					cfg.Count("body=" + strings.Trim(t[5:], "01234"))
+				}
 				cfg.Count("reqmod=" + string(t[1]))
 				cfg.Count("resmod=" + string(t[3]))
 			}
@@ -941,6 +1018,19 @@ func main() {
 			}
 			emit("etxt", in)
 			emit("etxt", append([]string{"D"}, in...))
+		}
+	}
+	//    request bodies (Content-Length / chunked, opaque / reading like an HTTP request) on every
+	//    request-modifier combination, forwarded or not, followed by more requests on the connection:
+	//    the modifiers must see exactly the requests the client sent
+	for _, q := range qAll {
+		for _, b := range "lhrj" {
+			for _, rt := range "ORFE" {
+				emit("body", []string{"K", string([]byte{'g', byte(q), byte(rt), 'P', 'k', byte(b)}), "gPOPk", "gPRPk"})
+			}
+			emit("body", []string{"K", string([]byte{'g', byte(q), 'O', 'E', 'k', byte(b)}), "gPOPk" + string(b), "gPOPk"})
+			emit("body", []string{"K", "mPOPk", string([]byte{'g', byte(q), 'O', 'P', 'k', byte(b)}), "gPOPk"})
+			emit("body", []string{"D", "K", string([]byte{'g', byte(q), 'R', 'P', 'k', byte(b)}), "gPOPk"})
 		}
 	}
 	// 2. every behaviour followed by a plain passing request and a second connection
